@@ -19,6 +19,11 @@ def prof(base, moves, depth, srcs=None, heaps="SrcHeapsCore", **kw):
 PROFILES = {
     "core2": prof("MC_Core", "MovesCore", 2),
     "core3": prof("MC_Core", "MovesCore", 3, srcs=[1, 6]),
+    "agg3": prof("MC_Focus", "MovesAgg", 3),
+    "win2": prof("MC_Focus", "MovesWin", 2),
+    "win3": prof("MC_Focus", "MovesWin", 3, srcs=[1, 6]),
+    "wins3": prof("MC_Focus", "MovesWinS", 3, srcs=[1, 6, 7]),
+    "wins4": prof("MC_Focus", "MovesWinS", 4, srcs=[1, 6]),
 }
 
 GEN_CLAUSES_SPEC = {"names", "rows", "order", "accept", "export-error", "group"}
@@ -28,6 +33,17 @@ CHECKS = {
         level="model_checking",
         clauses=GEN_CLAUSES_SPEC,
         phases=dict(quick=[dict(profile="core2")], thorough=[dict(profile="core2"), dict(profile="core3")]),
+    ),
+    "C04": dict(
+        level="model_checking",
+        clauses=GEN_CLAUSES_SPEC,
+        phases=dict(quick=[dict(profile="agg3")], thorough=[dict(profile="agg3")]),
+    ),
+    "C05": dict(
+        level="model_checking",
+        clauses=GEN_CLAUSES_SPEC,
+        phases=dict(quick=[dict(profile="win2"), dict(profile="wins3")],
+                    thorough=[dict(profile="win2"), dict(profile="win3"), dict(profile="wins4")]),
     ),
     "C11": dict(
         level="model_checking",
@@ -44,6 +60,27 @@ MANIFEST_TEXT = {
         text="TLC enumerates every pipeline of the row-level verbs up to the depth bound over the focus alphabets (BFS, history variable), "
              "the specification predicts the complete table after every step, and every distinct prefix is executed on Polars and on SQLite "
              "and compared cell by cell with the prediction (an independent row-by-row semantics, so a defect common to both back ends is caught).",
+        note=TRUST, technique="TLA+ spec + TLC exhaustive generation, replay on real code against predicted observations"),
+    "C04": dict(
+        level="model_checking",
+        clauses=GEN_CLAUSES_SPEC,
+        phases=dict(quick=[dict(profile="agg3")], thorough=[dict(profile="agg3")]),
+    ),
+    "C05": dict(
+        level="model_checking",
+        clauses=GEN_CLAUSES_SPEC,
+        phases=dict(quick=[dict(profile="win2"), dict(profile="wins3")],
+                    thorough=[dict(profile="win2"), dict(profile="win3"), dict(profile="wins4")]),
+    ),
+    "C04": dict(
+        text="TLC enumerates group_by / summarize pipelines over the aggregate focus alphabet (every aggregate, filter=, expressions over "
+             "aggregates, computed / boolean / nullable keys, empty and single-row inputs, verb contexts before and after); the specification's "
+             "set-comprehension semantics of grouping and aggregation predicts every result, which is compared with Polars and SQLite separately.",
+        note=TRUST, technique="TLA+ spec + TLC exhaustive generation, replay on real code against predicted observations"),
+    "C05": dict(
+        text="TLC enumerates arrange / window-function pipelines (all marker combinations over nullable and duplicated keys, every window function "
+             "with partition_by= or group_by, before and after filter / slice_head / mutate / select / rename); order is compared as the sequence "
+             "of tie classes the specification derives, window values cell by cell.",
         note=TRUST, technique="TLA+ spec + TLC exhaustive generation, replay on real code against predicted observations"),
     "C11": dict(
         text="For every table of every TLC-generated behaviour, columns(), iteration, len, `in` and dir are compared with the exported frame "
